@@ -77,14 +77,15 @@ pub struct ValidationObs {
     pub subs: BTreeSet<(String, String)>,
     pub repeated_path: Option<String>,
     pub raw_order: String,
+    /// the three vectors entry by entry, sorted (a multiset: an entry listed twice stays twice)
+    pub entries: Vec<String>,
 }
 
 impl ValidationObs {
     pub fn normalised(&self) -> String {
-        format!(
-            "ok={} derives={:?} attrs={:?} subs={:?} repeated={:?}",
-            self.ok, self.derives, self.attrs, self.subs, self.repeated_path
-        )
+        // "compared as sets": the order of the vectors is dropped, their entries are kept as
+        // they are (whether a path may be listed twice is C11's business, not C06's)
+        format!("ok={} entries={:?}", self.ok, self.entries)
     }
 }
 
@@ -100,6 +101,7 @@ pub fn validation(
         subs: BTreeSet::new(),
         repeated_path: None,
         raw_order: String::new(),
+        entries: vec![],
     };
     if let Err(e) = validate_substitutes_and_derives_against_registry(subs, derives, reg) {
         o.ok = false;
@@ -114,8 +116,12 @@ pub fn validation(
             }
             raw.push(']');
             let v: BTreeSet<String> = set.iter().map(|d| nospace(&tokens_of(d))).collect();
-            if o.derives.insert(k.clone(), v).is_some() {
+            o.entries.push(format!("derives {k} {v:?}"));
+            if let Some(old) = o.derives.get_mut(&k) {
+                old.extend(v);
                 o.repeated_path = Some(format!("derives:{k}"));
+            } else {
+                o.derives.insert(k.clone(), v);
             }
         }
         raw.push('|');
@@ -129,8 +135,12 @@ pub fn validation(
             }
             raw.push(']');
             let v: BTreeSet<String> = set.iter().map(|d| nospace(&tokens_of(d))).collect();
-            if o.attrs.insert(k.clone(), v).is_some() {
+            o.entries.push(format!("attrs {k} {v:?}"));
+            if let Some(old) = o.attrs.get_mut(&k) {
+                old.extend(v);
                 o.repeated_path = Some(format!("attrs:{k}"));
+            } else {
+                o.attrs.insert(k.clone(), v);
             }
         }
         raw.push('|');
@@ -138,11 +148,13 @@ pub fn validation(
             let k = (nospace(&tokens_of(p)), nospace(&tokens_of(t)));
             raw.push_str(&k.0);
             raw.push(',');
+            o.entries.push(format!("subs {} {}", k.0, k.1));
             if !o.subs.insert(k.clone()) {
                 o.repeated_path = Some(format!("subs:{}", k.0));
             }
         }
         o.raw_order = raw;
+        o.entries.sort();
     }
     o
 }
@@ -215,21 +227,36 @@ pub fn item_attrs(tokens: &str) -> Result<Vec<ItemAttrs>, String> {
     Ok(out)
 }
 
-/// "sorted and free of duplicates": strictly increasing in the order of the
-/// token strings (either with the emitter's spacing or with whitespace removed;
-/// both readings of "sorted by token string" are accepted).
-pub fn sorted_dupfree(list: &[String]) -> Result<(), String> {
-    let stripped: Vec<String> = list.iter().map(|s| nospace(s)).collect();
+/// "free of duplicates": no two entries of one list are the same tokens.
+pub fn dupfree(list: &[String]) -> Result<(), String> {
     let mut seen = BTreeSet::new();
-    for s in &stripped {
-        if !seen.insert(s.clone()) {
+    for s in list {
+        if !seen.insert(nospace(s)) {
             return Err(format!("duplicate entry {s}"));
         }
     }
-    let inc = |v: &[String]| v.windows(2).all(|w| w[0] < w[1]);
-    if inc(list) || inc(&stripped) {
-        Ok(())
-    } else {
-        Err(format!("not sorted: {list:?}"))
+    Ok(())
+}
+
+/// "sorted": the lists of all items follow one and the same strict total order. Which order is
+/// the implementation's choice (today: by token string); what cannot happen under any order is
+/// that `a` precedes `b` in one list and `b` precedes `a` in another. `before` accumulates the
+/// precedence pairs seen so far.
+pub fn consistent_order(
+    list: &[String],
+    before: &mut BTreeSet<(String, String)>,
+) -> Result<(), String> {
+    let l: Vec<String> = list.iter().map(|s| nospace(s)).collect();
+    for i in 0..l.len() {
+        for j in i + 1..l.len() {
+            if before.contains(&(l[j].clone(), l[i].clone())) {
+                return Err(format!(
+                    "{} precedes {} here, but follows it in another list of the same output: the lists are not sorted by one order",
+                    list[i], list[j]
+                ));
+            }
+            before.insert((l[i].clone(), l[j].clone()));
+        }
     }
+    Ok(())
 }
